@@ -200,12 +200,49 @@ func (m *Machine) atReturn(c *Config, fn *ssa.Function, fc *FuncContract, result
 		return
 	}
 	env := m.baseEnv(c)
+	// source-level locals whose definition dominates this return are visible to postconditions
+	// (ghost-out style: e.g. the address and kind computed by checkEncodeRefMap)
+	rb := c.top.block
+	for name, vals := range m.debugNames(fn) {
+		if _, taken := env.vars[name]; taken {
+			continue
+		}
+		var best ssa.Value
+		for _, v := range vals {
+			ins, ok := v.(ssa.Instruction)
+			if !ok {
+				continue
+			}
+			if b := ins.Block(); b == rb || b.Dominates(rb) {
+				if best == nil {
+					best = v
+				} else if bi := best.(ssa.Instruction); bi.Block().Dominates(b) {
+					best = v
+				}
+			}
+		}
+		if best != nil {
+			if val, ok := c.top.regs[best]; ok {
+				env.vars[name] = CV{V: val, Signed: isSigned(best.Type()), Typ: best.Type()}
+				continue
+			}
+		}
+		// the local has no value on this path: an arbitrary value (clauses guarded by the
+		// path's own condition are unaffected)
+		if len(vals) > 0 {
+			func() {
+				defer func() { recover() }()
+				t := vals[0].Type()
+				env.vars[name] = CV{V: m.freshValue("undef."+name, t), Signed: isSigned(t), Typ: t}
+			}()
+		}
+	}
 	m.bindResults(env, fn.Signature, results)
 	m.cur.curResults = results
 	m.regionEnv = env
 	defer func() { m.cur.curResults = nil; m.regionEnv = nil }()
-	m.applySets(env, fc, c.st)
-	for _, e := range fc.Ensures {
+	m.applySets(env, fc.Sets, c.st)
+	for _, e := range append(append([]*Clause{}, fc.Ensures...), fc.Proves...) {
 		if opts.onlyProps != nil && !propsIntersect(e.Props, opts.onlyProps) {
 			continue
 		}
@@ -270,7 +307,7 @@ func (m *Machine) frameCheck(c *Config, fn *ssa.Function, fc *FuncContract) {
 	}
 	var names []string
 	for name := range c.st.ghost {
-		if strings.HasPrefix(name, "@map:") {
+		if strings.HasPrefix(name, "@map:") || strings.HasPrefix(name, "@mapfresh:") || strings.HasPrefix(name, "@ch:") {
 			continue
 		}
 		names = append(names, name)
@@ -292,6 +329,45 @@ func (m *Machine) frameCheck(c *Config, fn *ssa.Function, fc *FuncContract) {
 			continue
 		}
 		m.emit(c, "frame", name, []string{"C11", "C12"}, Eq(nv, ov), "", "assigns "+strings.Join(fc.Assigns, ", "))
+	}
+	// map contents: every map whose contents differ from the entry state must be listed as mapof(...)
+	allowedMaps := map[string]bool{}
+	env := m.baseEnv(c)
+	for a := range allowed {
+		if strings.HasPrefix(a, "mapof(") && strings.HasSuffix(a, ")") {
+			if e, err := parseExpr(a[len("mapof(") : len(a)-1]); err == nil {
+				if cv, err := m.eval(env.withState(old), e); err == nil {
+					if t, ok := cv.V.(Term); ok {
+						allowedMaps[t.S] = true
+					}
+				}
+			}
+		}
+	}
+	var mkeys []string
+	for k := range c.st.ghost {
+		if strings.HasPrefix(k, "@map:") {
+			mkeys = append(mkeys, k)
+		}
+	}
+	sort.Strings(mkeys)
+	for _, k := range mkeys {
+		ref := strings.TrimPrefix(k, "@map:")
+		if allowedMaps[ref] || m.cur.freshTerms[ref] {
+			continue
+		}
+		nm := c.st.ghost[k].(*mapContent)
+		var om *mapContent
+		if o, ok := old.ghost[k].(*mapContent); ok {
+			om = o
+		} else {
+			// first touched after entry: its entry contents are the canonical initial symbols
+			om = &mapContent{has: Sym(sanitize("map.has0."+sanitize(ref)), nm.has.Sort), get: Sym(sanitize("map.get0."+sanitize(ref)), nm.get.Sort), size: app(SBV64, "map.size0", Sym(ref, "MapRef"))}
+		}
+		if nm.has.S == om.has.S && nm.get.S == om.get.S && nm.size.S == om.size.S {
+			continue
+		}
+		m.emit(c, "frame", "mapof("+ref+")", []string{"C11", "C12"}, And(Eq(nm.has, om.has), Eq(nm.get, om.get), Eq(nm.size, om.size)), "", "assigns "+strings.Join(fc.Assigns, ", "))
 	}
 	// parameter-rooted cells
 	for pname, pv := range m.cur.params {
@@ -435,10 +511,14 @@ func (m *Machine) structuralClauses(c *Config, fn *ssa.Function, fc *FuncContrac
 }
 
 // applySets performs the ghost assignments of a contract ("sets @g = e").
-func (m *Machine) applySets(env *Env, fc *FuncContract, st *State) {
-	for _, gs := range fc.Sets {
+func (m *Machine) applySets(env *Env, sets []GhostSet, st *State) {
+	for _, gs := range sets {
 		cv, err := m.eval(env, gs.Expr)
 		if err != nil {
+			if env.atCallSite && strings.Contains(err.Error(), "unknown identifier") {
+				// ghost code over the callee's locals: callers rely on the assigns/ensures instead
+				continue
+			}
 			m.errs = append(m.errs, fmt.Sprintf("sets %s: %v", gs.Ghost, err))
 			continue
 		}
